@@ -50,24 +50,34 @@ def main():
     if not ok:
         print("build failed", log[-2000:])
         return
+    only = sys.argv[1:]
     path = os.path.join(ROOT, "known_findings.json")
     cur = json.load(open(path)) if os.path.exists(path) else {"known": [], "fixed": []}
-    entries = {}
+    entries = {e["id"]: e for e in cur.get("known", [])}
+    todo = [pid for pid in sorted(props.REGISTRY) if isinstance(props.REGISTRY[pid], props.OutcomeCheck) and (not only or pid in only)]
+    # forget what is about to be recomputed
+    for e in entries.values():
+        for inst in e["instances"]:
+            inst["properties"] = [x for x in inst.get("properties", e.get("properties", [])) if x not in todo]
+        e["instances"] = [i for i in e["instances"] if i["properties"]]
     unclassified = []
-    for pid, chk in sorted(props.REGISTRY.items()):
-        if not isinstance(chk, props.OutcomeCheck):
-            continue
+    cache = {}
+    for pid in todo:
+        chk = props.REGISTRY[pid]
         for tier in ("quick", "thorough"):
             ctx = props.Ctx(pid, tier, 1, ROOT, os.path.join(ROOT, ".work"))
             det = chk.det_family(ctx)
             if not det:
                 continue
-            fam = props.FamilyRun(ctx, det, "det", cap=chk.cap)
-            empty = props.Known("/nonexistent", pid)
-            viol, _, _ = props.oracle_compare(ctx, fam, empty, chk.ref_mode)
-            for a in fam.aborts:
-                viol.append({"prog": a["prog"], "deviation": "abort:" + a["crash"]})
-            for v in viol:
+            key = (tuple(det), chk.cap, str(chk.ref_mode))
+            if key not in cache:
+                fam = props.FamilyRun(ctx, det, "det", cap=chk.cap)
+                empty = props.Known("/nonexistent", pid)
+                viol, _, _ = props.oracle_compare(ctx, fam, empty, chk.ref_mode)
+                for a in fam.aborts:
+                    viol.append({"prog": a["prog"], "deviation": "abort:" + a["crash"]})
+                cache[key] = viol
+            for v in cache[key]:
                 if not chk.relevant(v["deviation"]) and not v["deviation"].startswith("abort"):
                     continue
                 d = classify(v["prog"], v["deviation"])
@@ -76,16 +86,21 @@ def main():
                     continue
                 e = entries.setdefault(d, {"id": d, "properties": [], "what": FINDINGS[d][0], "call_site": FINDINGS[d][1],
                                            "witness": FINDINGS[d][2], "instances": []})
-                if pid not in e["properties"]:
-                    e["properties"].append(pid)
-                inst = {"prog": props.norm_prog(v["prog"]), "deviation": v["deviation"]}
-                if inst not in e["instances"]:
+                e["what"], e["call_site"], e["witness"] = FINDINGS[d]
+                np_ = props.norm_prog(v["prog"])
+                inst = next((i for i in e["instances"] if i["prog"] == np_ and i["deviation"] == v["deviation"]), None)
+                if inst is None:
+                    inst = {"prog": np_, "deviation": v["deviation"], "properties": []}
                     e["instances"].append(inst)
+                if pid not in inst["properties"]:
+                    inst["properties"].append(pid)
             ctx.cleanup()
-    cur["known"] = [entries[k] for k in sorted(entries)]
+    for e in entries.values():
+        e["properties"] = sorted({x for i in e["instances"] for x in i["properties"]})
+    cur["known"] = [entries[k] for k in sorted(entries) if entries[k]["instances"]]
     json.dump(cur, open(path, "w"), indent=1)
-    for k in sorted(entries):
-        print(k, entries[k]["properties"], len(entries[k]["instances"]), "instances")
+    for e in cur["known"]:
+        print(e["id"], e["properties"], len(e["instances"]), "instances")
     print("UNCLASSIFIED:", len(unclassified))
     for u in unclassified[:40]:
         print("  ", u)
